@@ -130,7 +130,11 @@ func c20Setup() (*c20Shared, error) {
 			{Name: "T0", Kind: "struct", Repr: "tuple", Fields: []tschema.FieldSpec{{Name: "fa", Type: "Int"}, {Name: "fb", Type: "String", Optional: true}}},
 			{Name: "T1", Kind: "union", Repr: "keyed", Members: []tschema.MemberSpec{{Type: "T0", Discr: "d0"}, {Type: "String", Discr: "d1"}}},
 			{Name: "T2", Kind: "map", Elem: "T1", ElemNullable: true},
-			{Name: "T3", Kind: "struct", Repr: "map", Fields: []tschema.FieldSpec{{Name: "fa", Type: "T2"}, {Name: "fb", Type: "T0", Nullable: true}, {Name: "fc", Type: "Bytes", Optional: true, Rename: "r"}}},
+			{Name: "T5", Kind: "struct", Repr: "stringjoin", Delim: "-", Fields: []tschema.FieldSpec{{Name: "a", Type: "String"}, {Name: "b", Type: "String"}}},
+			{Name: "T4", Kind: "union", Repr: "stringprefix", Delim: ":", Members: []tschema.MemberSpec{{Type: "String", Discr: "tok"}, {Type: "T5", Discr: "pair"}}},
+			{Name: "T6", Kind: "union", Repr: "kinded", Members: []tschema.MemberSpec{{Type: "Int"}, {Type: "T5"}}},
+			{Name: "T3", Kind: "struct", Repr: "map", Fields: []tschema.FieldSpec{{Name: "fa", Type: "T2"}, {Name: "fb", Type: "T0", Nullable: true}, {Name: "fc", Type: "Bytes", Optional: true, Rename: "r"},
+				{Name: "fd", Type: "T4"}, {Name: "fe", Type: "T4"}, {Name: "ff", Type: "T6"}}},
 			{Name: "C20W", Kind: "struct", Repr: "map", Fields: []tschema.FieldSpec{{Name: "s", Type: "String"}}},
 		}}
 		ts, err := s.schema.Build()
@@ -142,7 +146,10 @@ func c20Setup() (*c20Shared, error) {
 		s.bproto = bindnode.Prototype(nil, ts.TypeByName("T3"))
 		tv := tschema.TV{K: "struct", Items: []tschema.TV{
 			{K: "map", Keys: []string{"k", "z"}, Items: []tschema.TV{{K: "union", Member: 0, Items: []tschema.TV{{K: "struct", Items: []tschema.TV{{K: "scalar", V: val.MkInt(7)}, {K: "absent"}}}}}, {K: "null"}}},
-			{K: "null"}, {K: "scalar", V: val.MkBytes([]byte("xyz"))}}}
+			{K: "null"}, {K: "scalar", V: val.MkBytes([]byte("xyz"))},
+			{K: "union", Member: 0, Items: []tschema.TV{{K: "scalar", V: val.MkString("abc")}}},
+			{K: "union", Member: 1, Items: []tschema.TV{{K: "struct", Items: []tschema.TV{{K: "scalar", V: val.MkString("l")}, {K: "scalar", V: val.MkString("r")}}}}},
+			{K: "union", Member: 1, Items: []tschema.TV{{K: "struct", Items: []tschema.TV{{K: "scalar", V: val.MkString("p")}, {K: "scalar", V: val.MkString("q")}}}}}}}
 		s.tview = tschema.TypeView(&s.schema, "T3", tv)
 		s.rview, _ = tschema.ReprView(&s.schema, "T3", tv)
 		tn, err := nodes.Build(s.tview, nil, s.bproto)
@@ -157,6 +164,27 @@ func c20Setup() (*c20Shared, error) {
 		if err := add(tn.(schema.TypedNode).Representation(), false); err != nil {
 			c20Err = err
 			return
+		}
+		// the field nodes themselves, looked up once and then shared (a lookup on a bound node hands out a new
+		// node object every time, so sharing the parent alone does not share these), with their representations
+		for it := tn.MapIterator(); !it.Done(); {
+			_, child, err := it.Next()
+			if err != nil {
+				c20Err = err
+				return
+			}
+			ctn, isTyped := child.(schema.TypedNode)
+			if !isTyped || child.IsNull() || child.IsAbsent() {
+				continue
+			}
+			if err := add(child, true); err != nil {
+				c20Err = err
+				return
+			}
+			if err := add(ctn.Representation(), false); err != nil {
+				c20Err = err
+				return
+			}
 		}
 		// generated code: gendemo's typed map of structs
 		s.gdProto = gendemo.Type.Map__String__Msg3
